@@ -157,7 +157,7 @@ def run_part(seed, budget, exit_model="fixed"):
         hist["rec-graph-history:%d" % len(starts)] += 1
         cases.append((case, memo, why, ids, starts))
         reqs.append({"op": "rec", "id": gi, "graph": graph, "starts": [ids[s] for s in starts], "fuel": 20000})
-        creqs.append({"op": "rec", "id": gi, "graph": graph, "starts": [ids[c] for c in order], "fuel": 20000, "compile": True}); creal.append(real_compiled)
+        creqs.append({"op": "rec", "id": gi, "graph": graph, "starts": [ids[c] for c in order], "fuel": 20000, "compile": True, "objects": [ids[c] for c in classes]}); creal.append(real_compiled)
     outs = model(reqs)
     k_bad = 0
     for (case, memo, why, ids, starts), out in zip(cases, outs):
@@ -170,15 +170,14 @@ def run_part(seed, budget, exit_model="fixed"):
             case = dict(case, model=sorted(want.items()), real=sorted(memo.items()))
         if why or not k_ok:
             failures.append({"kind": "P" if why else "K", "k_ok": k_ok, "mode": "rec-graph", "case": case, "why": why or ["memo-differs-from-model"]})
-    # the consumer of the answers: the method of each class, compiled cold in the generated order, returns whenever the model's compilation stays within its bound
+    # the consumer of the answers: the method of each class, compiled cold in the generated order, returns iff the model's compilation (`compileF`) stays within its bound
     c_bad = 0
     for (case, memo, why, ids, starts), out, real in zip(cases, model(creqs), creal):
         want = out.get("compiled_" + exit_model)
-        # (the model gives every non-recursive type a fresh visitor; the real visitor compiles the first non-recursive type of a scope in place and so keeps more
-        #  placeholders: the model may overflow where the code returns - observed on the tree before row 96 in 8 of 120 graphs -, never the other way round)
-        if "error" in out or any(m and not r_ for m, r_ in zip(want or [], real)) or len(want or []) != len(real):
+        # (`compileF`: the `_first_visit` flag and its restoration at the end of every object field are in the model; the outcome is compared both ways)
+        if "error" in out or want != real:
             c_bad += 1
-            failures.append({"kind": "K", "k_ok": False, "mode": "rec-graph-compile", "case": dict(case, model_compiled=want, real_compiled=real), "why": ["compilation-overflows-where-the-model-returns"]})
+            failures.append({"kind": "K", "k_ok": False, "mode": "rec-graph-compile", "case": dict(case, model_compiled=want, real_compiled=real), "why": ["compilation-outcome-differs-from-model"]})
     hist["rec-graph-compile-K-compared"] = len(cases); hist["rec-graph-compile-K-disagreements"] = c_bad
     hist["rec-graph-K-compared"] = len(cases); hist["rec-graph-K-disagreements"] = k_bad
     # small-scope enumeration of the model (quick: 3 nodes, up to 3 children; thorough: 4 nodes, up to 2 children); a graph whose model memo is not exact is replayed on the real code
